@@ -1306,9 +1306,18 @@ def execute(ctx, cfg, kind, variant, lines, workdir, final=True):
                 names = craft_share(img, a, b)
                 if names:
                     after, txt = fsck_problems(ctx, img)
-                    if before is None or after is None or not set(after) <= set(before):
+                    if before is None or after is None:
+                        out["timeout"] = True
+                        return out
+                    if not before and after:
                         out["harness"] = "crafted shared xattr block rejected by e2fsck -fn: %s / %s" % (after, txt)
                         return out
+                    if before:
+                        # e2fsck already objected to the image (it stops accounting at its first
+                        # complaint about a block), so its verdict on the edit is not usable here
+                        j.bump("share_edit_not_verifiable_by_e2fsck")
+                    else:
+                        j.bump("share_edit_accepted_by_e2fsck")
                     for n in names:
                         if n in j.model[a]:
                             j.model.setdefault(b, {})[n] = j.model[a][n]
@@ -1329,6 +1338,8 @@ def execute(ctx, cfg, kind, variant, lines, workdir, final=True):
             out["timeout"] = True
         else:
             for p in probs[:4]:
+                if "i_blocks is" in p and cfg["ea_inode"]:
+                    p += " (ea_inode fs)"       # keeps block-accounting errors on other filesystems apart
                 j.v("e2fsck-fn " + p, txt)
         keys, det = fsckpair.pycheck(img)
         if keys:
